@@ -433,10 +433,15 @@ type SolveOpts struct {
 }
 
 func runSolver(sc SolverCfg, script string, dir string, name string, timeoutMs int) (string, string, float64) {
+	return runSolverCtx(context.Background(), sc, script, dir, name, timeoutMs)
+}
+
+// runSolverCtx: as runSolver; cancelling parent kills the solver process (used when another portfolio member has won).
+func runSolverCtx(parent context.Context, sc SolverCfg, script string, dir string, name string, timeoutMs int) (string, string, float64) {
 	file := filepath.Join(dir, sanitize(name)+"."+sc.Name+".smt2")
 	os.WriteFile(file, []byte(script), 0o644)
 	defer os.Remove(file)
-	ctx, cancel := context.WithTimeout(context.Background(), time.Duration(timeoutMs+2000)*time.Millisecond)
+	ctx, cancel := context.WithTimeout(parent, time.Duration(timeoutMs+2000)*time.Millisecond)
 	defer cancel()
 	argv := append([]string{}, sc.Argv...)
 	if sc.Name == "cvc5" {
@@ -451,7 +456,14 @@ func runSolver(sc SolverCfg, script string, dir string, name string, timeoutMs i
 	cmd.Run()
 	el := time.Since(t0).Seconds()
 	s := out.String()
-	first := strings.TrimSpace(strings.SplitN(s, "\n", 2)[0])
+	first := ""
+	for _, ln := range strings.Split(s, "\n") {
+		// z3 prints pattern warnings before the verdict; they do not affect soundness (the pattern is ignored)
+		if ln = strings.TrimSpace(ln); ln != "" && !strings.HasPrefix(ln, "WARNING") {
+			first = ln
+			break
+		}
+	}
 	switch first {
 	case "unsat", "sat", "unknown":
 	default:
@@ -562,10 +574,12 @@ func (o *Obligation) solveGoal(opts SolveOpts) {
 		return
 	}
 	ch := make(chan res, len(order))
+	pctx, pcancel := context.WithCancel(context.Background())
+	defer pcancel() // the losers of the race are killed as soon as one member has decided the goal
 	for _, sc := range order {
 		sc := sc
 		go func() {
-			r, out, t := runSolver(sc, o.Script(sc.Name, opts.TimeoutMs, wantModel), opts.Dir, o.Name, opts.TimeoutMs)
+			r, out, t := runSolverCtx(pctx, sc, o.Script(sc.Name, opts.TimeoutMs, wantModel), opts.Dir, o.Name, opts.TimeoutMs)
 			ch <- res{r, out, sc.Name, t}
 		}()
 	}
@@ -612,10 +626,14 @@ func SolveAll(obls []*Obligation, opts SolveOpts, par int) {
 			retry = append(retry, o)
 		}
 	}
-	if len(retry) > 0 && !opts.NoRetry {
+	// two more chances: 3x the budget at parallelism 4, then 8x at parallelism 2
+	for _, round := range []struct{ mult, par int }{{3, 4}, {8, 2}} {
+		if len(retry) == 0 || opts.NoRetry {
+			break
+		}
 		o2 := opts
-		o2.TimeoutMs = opts.TimeoutMs * 3
-		sem2 := make(chan struct{}, 4)
+		o2.TimeoutMs = opts.TimeoutMs * round.mult
+		sem2 := make(chan struct{}, round.par)
 		var wg2 sync.WaitGroup
 		for _, o := range retry {
 			o := o
@@ -631,6 +649,16 @@ func SolveAll(obls []*Obligation, opts SolveOpts, par int) {
 			}()
 		}
 		wg2.Wait()
+		var still []*Obligation
+		for _, o := range retry {
+			if o.Result != "unsat" && o.Result != "sat" {
+				still = append(still, o)
+			}
+		}
+		retry = still
+		if len(retry) > 6 {
+			break // many undecided obligations: a real change, not load; do not spend minutes on each
+		}
 	}
 	sort.SliceStable(obls, func(i, j int) bool { return obls[i].Name < obls[j].Name })
 }
